@@ -60,6 +60,9 @@ CHECKS = {
  "C06": dict(level="fault_enumeration", design="3/C06", technique="fault enumeration over queue fill levels, reader states and concurrent actors at shutdown, in worker child processes, with a structural goroutine-dump classifier (deadlock) and a draw step counter (livelock); seeded schedule controller at build-tagged schedule points",
     text="Every event-queue fill 0..cap, every chunk-queue fill 0..cap with the main loop parked, reader parked on the send, reader held between Read and send by a gate, Read errors; x Fini / Suspend / Suspend-Resume-Fini; x none/poller/poster/Show loop/resize storm; plus seeded random schedules. Verdict per scenario: returned, or structural deadlock/livelock witness; post-conditions after Fini, Suspend and Resume.",
     note="Liveness restated as bounded progress with structural witnesses; watchdog expiry alone is inconclusive; one terminal entry (xterm-256color) - the shutdown path does not depend on the entry."),
+ "C05": dict(level="exploration", design="3/C05", technique="recorded client-boundary histories with unique ids checked offline (exactly-once, FIFO, conservation of posts, timestamp bounds), porcupine linearizability of Post/Poll/HasPending against a capacity-agnostic FIFO model, under the Go race detector with schedule-point perturbation",
+    text="Feeder, 1-4 posters, resize storm and a poller in four modes (eager, slow, absent until both queues are full and longer than the escape timeout, bursty) on a real screen; every delivered event is matched against the id-carrying input stream and the posters' return values; When() bounds; HasPending-then-Poll; ChannelEvents order and closing.",
+    note="Resize events excluded (dropped on a full queue by design); a history in which the feeder itself paused > 20 ms inside a sequence is inconclusive for decoding; histories sampled."),
 }
 PENDING = {}
 
